@@ -20,8 +20,10 @@ B. flush / ack reports (server/aof.go: AofFile.WriteLock / WriteLockData / Flush
                                                                   the list before <op>)
      quorum:registered-stale-count:<op>                           ... and a lock was registered with it
      quorum:follower-list:<op>                                    len(serverChannels) is not the expected list length
-     flush:reported-true-before-value-written                     (1) true report, value of the record being appended
-                                                                  not in the .dat file (operation ended in an error)
+     (note:reported-true-before-value-written                     true report for the record being appended, then the
+                                                                  unbuffered write of its value failed: the exception of
+                                                                  theorem C11_glue_flush_step (1); counted in the evidence,
+                                                                  not a violation -- see NOTE_SIGS)
      flush:reported-true-after-failed-write                       (1) true report, record or value not in the files
      flush:unexpected-report                                      (2) report for a request that is not pending
      flush:ack-left-pending-after-flush / -after-failed-flush     (2) a flush left a request unreported
@@ -233,7 +235,7 @@ def quorum_monitor(case, go_line):
         else:
             if cause is None:
                 cause = (f[0], before)
-            kind = "stale" if all(c == cause[1] for _, c in bad) else "wrong"
+            kind = "stale" if all(c in (cause[1], before) for _, c in bad) else "wrong"
             yield ("quorum:%s-ack-count:%s" % (kind, cause[0]),
                    "ack DB count %s differs from the count %d of the current follower list (%d followers, mode %d%s) after %s"
                    % (bad, want, len(chans), mode, "" if arb is None else ", replica set " + (arb or "empty"), cause[0]),
@@ -273,7 +275,8 @@ def flush_monitor(case, go_line):
                 pending.remove(rid)
             if tf == "T" and (m != "1" or d != "1"):
                 if rid == cur and o["err"] == "1" and m == "1":
-                    yield ("flush:reported-true-before-value-written",
+                    # the exception of theorem C11_glue_flush_step (1): not a violation of C11, see NOTE_SIGS
+                    yield ("note:reported-true-before-value-written",
                            "request %d reported true by the Flush inside WriteLock / WriteLockData, then the unbuffered write of its own value failed" % rid,
                            {"step": i, "op": op, "observed": parts[i]})
                 else:
@@ -292,6 +295,17 @@ def flush_monitor(case, go_line):
             yield ("flush:ackindex-mismatch", "ackIndex %s but %d requests are unreported" % (o["ai"], len(pending)),
                    {"step": i, "op": op, "observed": parts[i]})
         is_open = o["open"] == "1"
+
+
+# observations the monitors recognise but which do not violate C11
+NOTE_SIGS = {
+    "note:reported-true-before-value-written":
+        "layer-level exception of theorem C11_glue_flush_step (1), witness of C11_glue_flush_true_durable_refuted: the record "
+        "being appended is reported true by the Flush inside WriteLock/WriteLockData, then the unbuffered write of its own "
+        "value fails.  Masked one level up: Aof.PushLock returns the write error and AofChannel.Handle calls "
+        "DoAckLock(lock, false) at once, before the queued report (same channel: both are routed by the key hash) is "
+        "handled; DoAckLock is single-shot (engine-level C11 theorem), so the requester gets the error.",
+}
 
 
 def monitors(case, go_line):
@@ -397,7 +411,7 @@ def run(ctx):
                 return name
         return "?"
 
-    opdist, classes, sigs, mismatches = {}, {}, {}, []
+    opdist, classes, sigs, mismatches, notes = {}, {}, {}, [], {}
     nsteps = 0
     rep_true = rep_false = failed_ops = 0
     maxfollowers = {}
@@ -430,7 +444,10 @@ def run(ctx):
         if gl != ml:
             mismatches.append(i)
         for sig, what, det in monitors(case, gl):
-            sigs.setdefault(sig, []).append((i, what, det))
+            if sig in NOTE_SIGS:
+                notes.setdefault(sig, []).append(i)
+            else:
+                sigs.setdefault(sig, []).append((i, what, det))
 
     def go_pred(sig):
         def pred(c):
@@ -488,6 +505,7 @@ def run(ctx):
         "model_classes": dict(sorted(classes.items())),
         "mismatches": len(mismatches),
         "monitor_signatures": reported,
+        "observed_not_violations": {k: {"count": len(v), "first_case": cases[v[0]], "why": NOTE_SIGS[k]} for k, v in sorted(notes.items())},
         "samples": [c for n, a, b in bounds for c in cases[a:a + 2] if n != "corpus"],
         "timing_s": {"go": round(t_go, 2), "model": round(t_model, 2), "coq": round(getattr(ctx, "coq_time", 0), 2),
                      "translator_incl_lock_wait": round(t_gen, 2), "coq_incl_lock_wait": round(t_coq_wall, 2),
